@@ -80,3 +80,23 @@ void h_readonly_proxy(void) {   /* [a]; nesting()/size()/isNull()/operator| on d
   VASSERT(h.f8.e[7] == 0 && (h.f5 & 1) && (int32_t)h.f7 == -7, "a missing element has nesting 0, size 0, is null and yields the default");
   VWITNESS("any");
 }
+
+/* ---- C13: copyArray never writes beyond the destination it was given */
+void h_copyarray_out(void) {
+  int32_t a = (int32_t)vin_u32(), b = (int32_t)vin_u32(), c = (int32_t)vin_u32(); uint64_t cap = vin_u8(); VASSUME(cap <= 4);
+  int32_t dst[6]; for (unsigned i = 0; i < 6; i++) dst[i] = 0x5A5A5A5A;
+  uint64_t r = w_copyarray_out((uint32_t)a, (uint32_t)b, (uint32_t)c, cap, (uint32_t*)dst);
+  uint64_t n = cap < 3 ? cap : 3; int32_t v[3] = {a, b, c};
+  VASSERT(r == n, "returns the number of elements copied = min(capacity, size)");
+  for (unsigned i = 0; i < 4; i++) { if (i < n) VASSERT(dst[1 + i] == v[i], "copied elements in order"); else VASSERT(dst[1 + i] == 0x5A5A5A5A, "elements beyond the copied count are untouched"); }
+  VASSERT(dst[0] == 0x5A5A5A5A && dst[5] == 0x5A5A5A5A, "nothing outside the destination is written");
+  if (cap < 3) VWITNESS("short"); else VWITNESS("fits");
+}
+void h_copyarray_str(void) {
+  uint8_t s[6]; for (unsigned i = 0; i < 6; i++) s[i] = vin_u8(); uint64_t n = vin_u8() % 7; for (unsigned i = 0; i < 6; i++) if (i < n) VASSUME(s[i] != 0);
+  uint8_t g[6]; memset(g, 0xA5, 6); uint64_t r = w_copyarray_str(s, n, g);
+  uint64_t k = n < 3 ? n : 3;
+  VASSERT(r == 1, "one value copied"); for (unsigned i = 0; i < 3; i++) if (i < k) VASSERT(g[1 + i] == s[i], "the string is truncated to the destination");
+  VASSERT(g[1 + k] == 0, "always NUL-terminated inside char[4]"); VASSERT(g[0] == 0xA5 && g[5] == 0xA5, "nothing outside the destination is written");
+  if (n > 3) VWITNESS("truncated"); else VWITNESS("fits");
+}
